@@ -776,21 +776,35 @@ impl Pooled for C16 {
                 ));
             }
         } else {
-            // predict the running time from two small runs; skip (and say so) what does not fit
-            let budget = 240.0;
-            let (a, bsz) = (c.n / 400, c.n / 20);
-            let t0 = Instant::now();
-            let _ = measured(build_big(&c.op, a.max(8)));
-            let ta = t0.elapsed().as_secs_f64().max(1e-4);
-            let t0 = Instant::now();
-            let _ = measured(build_big(&c.op, bsz.max(16)));
-            let tb = t0.elapsed().as_secs_f64().max(1e-4);
-            let e = ((tb / ta).ln() / 20f64.ln()).clamp(1.0, 2.5);
-            let predicted = tb * 20f64.powf(e);
-            if predicted > budget {
-                st.inc("big_cases_capped_for_time");
-                st.sample(json!(format!("capped: {} {} n={} predicted {predicted:.0}s (exponent {e:.2})", c.profile, c.op, c.n)));
-                return out;
+            // climb a x4 ladder of sizes towards n, predicting each rung's running time from the
+            // previous ones; stop (and say so) as soon as the next rung would not fit the budget
+            let budget = 90.0;
+            let mut prev: Vec<(usize, f64)> = vec![];
+            let mut m = 250usize;
+            loop {
+                let target = m.min(c.n);
+                if let Some(&(pm, pt)) = prev.last() {
+                    let e = if prev.len() >= 2 {
+                        let (qm, qt) = prev[prev.len() - 2];
+                        ((pt / qt).ln() / (pm as f64 / qm as f64).ln()).clamp(1.0, 2.5)
+                    } else {
+                        2.0
+                    };
+                    let predicted = pt * (target as f64 / pm as f64).powf(e);
+                    if predicted > budget {
+                        st.inc("big_cases_capped_for_time");
+                        st.sample(json!(format!("capped: {} {} n={} (rung {target} predicted {predicted:.0}s, exponent {e:.2}; completed up to n={pm})", c.profile, c.op, c.n)));
+                        st.max("largest_completed_before_cap", pm as u64);
+                        return out;
+                    }
+                }
+                if target == c.n {
+                    break;
+                }
+                let t0 = Instant::now();
+                let _ = measured(build_big(&c.op, target));
+                prev.push((target, t0.elapsed().as_secs_f64().max(1e-4)));
+                m *= 4;
             }
             let job = build_big(&c.op, c.n);
             // plain 2 MiB thread: an overflow here kills this process, the pool attributes it to the case
@@ -814,20 +828,22 @@ pub fn run(tier: Tier) -> Report {
     let mut rep = Report::new("C16", tier);
     let o = crate::pool::parent(&C16, tier, None);
     rep.stats.merge(&o.stats);
-    rep.stats.add("states", rep.stats.get("cases_run"));
+    // (counters of a worker that died since its last report are lost: the deterministic size of the
+    //  enumeration is the number of cases; every one of them was run or attributed to a crash)
+    rep.stats.add("states", rep.stats.get("enumerated"));
     rep.stats.add("transitions", rep.stats.get("runs"));
     rep.stats.add("validated", rep.stats.get("runs"));
     rep.violations = o.violations;
     rep.caps = o.caps;
     if rep.stats.get("big_cases_capped_for_time") > 0 {
-        rep.caps.push(format!("{} big-size cases were skipped because their predicted running time exceeded 240 s (listed under samples); the slope cases for the same operations ran", rep.stats.get("big_cases_capped_for_time")));
+        rep.caps.push(format!("{} big-size cases were skipped because their predicted running time exceeded 90 s (listed under samples); the slope cases for the same operations ran", rep.stats.get("big_cases_capped_for_time")));
     }
     let nops = op_names().len();
     rep.rule = format!(
         "{nops} operations (pattern queries in Light/Fast datasets and graphs for every combination of constant positions x position of a non-constant matcher rejecting all rows but the last; term enumerations; one literal of n escaped characters in 8 serializers x 5 escape kinds; 15 SPARQL forms incl. GRAPH ?g over n named graphs, OFFSET, FILTER, joins; serialising n statements in 6 shapes incl. one RDF list of n items, in and out of named graphs, in 8 serializers; parsing n statements / one collection of n items / n-ary predicate and object lists in 8 parsers; insert_all/remove_matching/retain_matching/remove on 6 stores; canonicalisation and isomorphism of n statements) x 2 build profiles of the harness and of /repo (dev: opt-level 0; release); slope mode: stack high-water marks on a painted 2 MiB thread stack at n={N1} and n={N2} (half of each for the pretty serializers, which are quadratic in time) must differ by at most {TOLERANCE} bytes; big mode: the operation runs at n={} on a 2 MiB thread in a child process; non-trivial = the run at the larger size completed with a value (not an error)",
         match tier {
             Tier::Quick => "(not run in this tier)",
-            Tier::Thorough => "20 000, 100 000 and 1 000 000 (cases whose predicted time exceeds 240 s are skipped and counted under big_cases_capped_for_time)",
+            Tier::Thorough => "20 000, 100 000 and 1 000 000 (a case climbs a x4 size ladder and is skipped, and counted under big_cases_capped_for_time, when the next rung's predicted time exceeds 90 s)",
         }
     );
     rep.bounds = json!({"operations": nops, "profiles": ["dev", "release"], "slope_sizes": [N1, N2], "tolerance_bytes": TOLERANCE, "big_sizes": tier.pick(vec![], vec![20_000, 100_000, 1_000_000]), "stack_bytes": STACK});
